@@ -6,6 +6,8 @@ DOC = {
     'not_decided': ['equality of restored contents', 'persistence across crashes beyond the C01 ordering clauses'],
 }
 
+WITNESSES = ['C07W1Fail', 'C07W1Twin']
+
 
 def rules(ctx):
     S.c07_rules(ctx)
